@@ -245,7 +245,13 @@ def are_d_separated(
 
     # Filter to ancestors
     keep = graph.ancestors_inclusive(named)
-    evidence_graph = graph.subgraph(keep).moralize().disorient()
+    ancestral_graph = graph.subgraph(keep)
+    # A bidirected edge stands for a latent common parent of its endpoints, so the
+    # moralization has to marry co-parents through these latent parents, too
+    latent_dag = nx.DiGraph(ancestral_graph.directed)
+    for u, v in ancestral_graph.undirected.edges():
+        latent_dag.add_edges_from([(("latent", u, v), u), (("latent", u, v), v)])
+    evidence_graph = nx.moral_graph(latent_dag)
 
     keep = set(evidence_graph.nodes) - set(conditions)
     evidence_graph = evidence_graph.subgraph(keep)
